@@ -47,10 +47,21 @@ Section Tables.
     | None => None
     end.
 
-  (* peepBValOpInfo[op]; beyond the last row the C reads past the table (OpNonZero is the
-     sentinel row, OpNonNeg/OpNonPos/OpId lie behind it): arity taken as non-zero there *)
+  (* peepBValOpInfo[op].  The enum bvalOp has more values than the table has rows: the value that
+     indexes the sentinel row reads the sentinel's arity; the values behind it (OpNonNeg, OpNonPos,
+     OpId in the current source) make the C read PAST the table (undefined behaviour; no effect on
+     soundness: a zero only makes the rule refuse operands with a side effect).  What is read there
+     was OBSERVED, on the pinned build and on the build the check makes: zero for all of them except
+     OpId, whose slot reads non-zero (x + 0 ==> x also for x with a side effect, 0 <= x ==> not
+     (x < 0) only for x without).  The tie with the real pass re-checks this on every run. *)
   Definition op_row (p : pop) : option oprow := find (fun r => pop_eqb (oop r) p) peep_ops.
-  Definition arity_of (p : pop) : Z := match op_row p with Some r => oarity r | None => 1 end.
+  Definition observed_beyond_table (p : pop) : Z := match p with OpId => 1 | _ => 0 end.
+  Definition arity_of (p : pop) : Z :=
+    match op_row p with
+    | Some r => oarity r
+    | None => if existsb (pop_eqb p) peep_ops_at_sentinel then peep_sentinel_arity
+              else observed_beyond_table p
+    end.
   Definition field (f : oprow -> pop) (p : pop) : pop := match op_row p with Some r => f r | None => OpNone end.
 
   (* peepFoamIsValue(type, value, foam) on the fragment's data types *)
